@@ -428,6 +428,44 @@ def ref_limit_routes(R, B, rng):
             R.case(mon.fp('reflimit', name, n))
 
 
+def derived_builder_capacity(R, B, rng):
+    """a builder obtained from a cell or a slice enforces the capacity like a fresh one, whatever kind of bit array the cell was constructed from (a plain
+    bitarray of either storage order, a TvmBitarray, a parsed cell): at fill f a store of 1023 - f bits fits, one bit more is refused, through each store kind"""
+    from bitarray import bitarray
+    from pytoniq_core.boc.tvm_bitarray import TvmBitarray
+    for fill in (0, 1, 7, 8, 500, 767, 1000, 1015, 1016, 1022, 1023):
+        bits = gen.rand_bits(rng, fill)
+        sources = [('Cell(bitarray)', lambda: B.Cell(bitarray(bits), [])), ('Cell(bitarray-little)', lambda: B.Cell(bitarray(bits, endian='little'), [])),
+                   ('Cell(TvmBitarray)', lambda: B.Cell(TvmBitarray(1023, bits), [])), ('built', lambda: B.Builder().store_bits(bits).end_cell()),
+                   ('parsed', lambda: B.Cell.one_from_boc(B.Builder().store_bits(bits).end_cell().to_boc()))]
+        for sname, mk in sources:
+            for dname, derive in (('to_builder', lambda c: c.to_builder()), ('begin_parse.to_builder', lambda c: c.begin_parse().to_builder()),
+                                  ('copy.to_builder', lambda c: c.copy().to_builder()), ('Builder.store_cell', lambda c: B.Builder().store_cell(c))):
+                room = 1023 - fill
+                stores = [('store_bits', lambda b, n: b.store_bits('1' * n)), ('store_uint', lambda b, n: b.store_uint(0, n) if n <= 256 else b.store_uint(0, 256).store_uint(0, n - 256) if n <= 512 else b.store_bits('0' * n)),
+                          ('store_bit', lambda b, n: [b.store_bit(1) for _ in range(n)] if n <= 64 else b.store_bits('1' * (n - 1)).store_bit(1)),
+                          ('store_bytes', lambda b, n: b.store_bytes(bytes((n + 7) // 8)) if n % 8 == 0 or n > room else b.store_bits('0' * n))]
+                for kname, store in stores:
+                    for extra in (0, 1):
+                        n = room + extra
+                        if n == 0:
+                            continue
+                        st0, b = mon.call(lambda: derive(mk()))
+                        if st0 == 'exc':
+                            continue
+                        st, e = mon.call(store, b, n)
+                        R.counters['oracle_evaluations'] += 1
+                        R.count('derived_builder_stores')
+                        W = {'source': sname, 'derivation': dname, 'store': kname, 'fill': fill, 'bits_stored': n}
+                        if extra:
+                            R.check(st == 'exc' or len(b.bits) <= 1023, f'derived-builder-accepts-overflow-{dname.split(".")[-1]}',
+                                    f'a builder obtained by {dname} from a {sname} cell of {fill} bits accepted {n} more bits through {kname}: it now holds {len(b.bits)} bits', W)
+                        else:
+                            R.check(st == 'ok' and len(b.bits) == 1023, f'derived-builder-refuses-fit-{dname.split(".")[-1]}',
+                                    f'a builder obtained by {dname} from a {sname} cell of {fill} bits refused / mis-stored {n} bits that fit exactly ({e!r})', W)
+        R.case(mon.fp('derivedbuilder', fill))
+
+
 def exotic_depth_limits(R, B, rng, quick):
     """the depth limit holds at every level: children that are pruned branches *claim* a depth per level, Merkle cells take their child's depth one
     level up.  Expected verdict from R1 (RefError('depth') <=> some significant level exceeds 1023)."""
@@ -562,6 +600,7 @@ def run(R):
     if R.shard == 0:
         depth_limit(R, B)
         ref_limit_routes(R, B, rng)
+        derived_builder_capacity(R, B, rng)
         exotic_depth_limits(R, B, rng, quick)
     for i in range((40 if quick else 3000) // R.nshards + 1):
         random_history(R, B, rng, leafs, 40)
